@@ -44,6 +44,10 @@ CHECKS = {
    text="Every ASN.1 type in asn1.h (universal/implicit/explicit tags) and every SM2, PKCS#8, SM9, algorithm-identifier, name and selected extension codec is encoded two-pass into an exactly-sized buffer, compared with the reference DER and decoded back; every single-defect mutant of each encoding is offered to the decoder under the rule 'accepted completely => re-encodes identically'; base64/hex/PEM are checked under generated partitions, line ends and capacities; a wrong password never opens a key. Sampled, not exhaustive.",
    note="Trusted: vlib/ref/der.py (self-tested on X.690 examples), Python base64/hashlib. Domain exclusions: negative integers/times, 32-bit time_t, UniversalString, uncovered extension builders; SM9 point octets are taken from the library.",
    design="4/C14"),
+ "C07": dict(level="exploration", technique="property-based testing (Hypothesis): chain descriptions generated by deviation from the toolkit's chain shape, certificates built and signed in Python, library verdict compared with a reference predicate in the two directions the property states (accept => predicate; toolkit-shaped => accept)",
+   text="Generated chains of 1..6 certificates (TLS and TLCP forms, both roles, trust store has/lacks/impostor, root in chain or not, depth 0..6) with 0..3 deviations out of 28 kinds; soundness and completeness are asserted one-directionally, so library strictness beyond the statement never alarms. Exploration of the attribute space, not exhaustive.",
+   note="Trusted: vlib/ref/x509.py builder and the Python SM2 signer, the predicate in props/C07.py; clock frozen.",
+   design="4/C07"),
 }
 
 NOT_YET = {
